@@ -850,6 +850,36 @@ package badger
 //@   assert[copy-of-read] before call copy : arg1 == ret0(yieldItemValue#1) && len(arg0) == len(ret0(yieldItemValue#1))
 //@   assert[room-for-all] before call Resize : arg1 == len(ret0(yieldItemValue#1))
 
+// ---- reading log records back (C16) ----
+
+// safeRead.Entry: header, key and value pass through the hashing reader, the stored checksum
+// does not; a record is returned only when the stored checksum equals the computed one, with
+// the header's meta, user meta and expiry, at the reader's record offset; encrypted records are
+// decrypted with the IV of that offset.
+//@ func (*safeRead).Entry
+//@   props C16
+//@   light
+//@   assert[header-hashed] before call DecodeFrom : arg1 == ret(newHashReader#1)
+//@   assert[hash-of-given-reader] before call newHashReader : arg0 == reader
+//@   assert[key-value-hashed] before call ReadFull#1 : arg0 == ret(newHashReader#1)
+//@   assert[checksum-not-hashed] before call ReadFull#2 : arg0 == reader
+//@   assert[decrypt-at-record-offset] before call decryptKV : arg0 == r.lf && arg2 == r.recordOffset
+//@   assert[checksum-verified] before return : result1 == nil ==> called(Sum32#1) && called(BytesToU32#1) && ret(BytesToU32#1) == ret(Sum32#1)
+//@   assert[record-as-stored] before return : result1 == nil ==> result0 != nil && result0.meta == h.meta && result0.UserMeta == h.userMeta && result0.ExpiresAt == h.expiresAt && result0.offset == r.recordOffset && result0.hlen == ret0(DecodeFrom#1) && len(result0.Key) == int(h.klen) && (!called(decryptKV#1) ==> len(result0.Value) == int(h.vlen))
+//@   assert[error-no-record] before return : result1 != nil ==> result0 == nil
+
+// iterate: every record is delivered with the pointer (file, offset, length) it was read at;
+// entries of a transaction are delivered only once its end marker with the same timestamp was
+// read, and a record outside a transaction only when no transaction is open.
+//@ func (*logFile).iterate
+//@   props C16
+//@   light
+//@   assert[txn-entries-after-marker] before call fn#1 : lastCommit == 0 && arg1 == vptrs[i]
+//@   assert[standalone-outside-txn] before call fn#2 : lastCommit == 0 && validEndOffset == read.recordOffset
+//@   assert[pointer-of-record] before call fn#2 : arg1.Fid == lf.fid && arg1.Offset == e.offset && arg1.Len == uint32(e.hlen + len(e.Key) + len(e.Value) + 4)
+//@   assert[records-in-order] before call Entry : arg0 == read && arg1 == reader
+//@   assert[starts-after-header] before call NewReader#2 : arg1 == (old(offset) == 0 ? vlogHeaderSize : int(old(offset)))
+
 // ---- streams (C25): one snapshot per run ----
 
 // Every producer goroutine of one Stream run must read the same snapshot. With a caller-given
